@@ -118,14 +118,14 @@ func (s StrMap) SortedKeys() []string {
 }
 
 type Deb struct {
-	Arch                                   string
-	Rules, Templates, Config               string
-	Interest, InterestAwait, InterestNoAw  []string
-	Activate, ActivateAwait, ActivateNoAw  []string
-	Breaks, Predepends                     []string
-	Sig                                    Sig
-	Compression                            string
-	Fields                                 StrMap
+	Arch                                  string
+	Rules, Templates, Config              string
+	Interest, InterestAwait, InterestNoAw []string
+	Activate, ActivateAwait, ActivateNoAw []string
+	Breaks, Predepends                    []string
+	Sig                                   Sig
+	Compression                           string
+	Fields                                StrMap
 }
 
 func (d Deb) om() *OM {
@@ -267,7 +267,7 @@ func (i IPK) om() *OM {
 type Over struct {
 	Replaces, Provides, Depends, Recommends, Suggests, Conflicts []string
 	Contents                                                     []*Content
-	HasContents                                                  bool // emit `contents:` even when empty
+	HasContents                                                  bool  // emit `contents:` even when empty
 	Umask                                                        int64 // 0 = not configured
 	Scripts                                                      Scripts
 	RPM                                                          RPM
